@@ -286,8 +286,10 @@ Proof. repeat split; reflexivity. Qed.
    holds the stream, justifies a body *)
 Example C10_ex_justified :
   let t := [TIn 0 2 false; TOut (ex_frame 0 [7; 8]); TIn 1 4 false; TOut (firstn 10 (ex_frame 1 [9; 9]));
-            TIn 0 6 false; TOut (ex_frame 0 [5])] in
+            TIn 0 6 false; TOut (ex_frame 65535 [1] ++ ex_frame 0 [5] ++ [132; 0])] in
   sent_for 0 2 false t = [[7; 8]] /\ sent_for 0 6 false t = [[5]] /\ sent_for 1 4 false t = [] /\
+  frames_of 40 (ex_frame 3 [1] ++ ex_frame 4 [] ++ [132]) = [mk_frame (ex_hdr 3 1) [1]; mk_frame (ex_hdr 4 0) []] /\
+  frames_of 40 (firstn 9 (ex_frame 3 [1])) = [] /\
   justified 2 [7; 8] [t] = true /\
   justified 6 [7; 8] [t] = false /\      (* body of another request on the same stream id *)
   justified 4 [9; 9] [t] = false /\      (* frame cut after 10 of 11 bytes *)
